@@ -24,7 +24,6 @@ import (
 	"fmt"
 	"github.com/nuts-foundation/go-did/did"
 	"github.com/nuts-foundation/nuts-node/crypto/hash"
-	"reflect"
 	"strings"
 	"time"
 )
@@ -101,14 +100,12 @@ func (r DIDKeyResolver) baseUrl(doc *did.Document) (baseUrl *string) {
 	context := doc.Context
 	for i := range context {
 		ctx := context[i]
-		if reflect.ValueOf(ctx).Kind() == reflect.Map {
-			m := ctx.(map[string]interface{})
-			if val, ok := m["@base"]; ok {
-				valStr := val.(string)
+		if m, isMap := ctx.(map[string]interface{}); isMap {
+			// a non-string @base is not a base URL, ignore it
+			if valStr, ok := m["@base"].(string); ok {
 				baseUrl = &valStr
 				break
 			}
-
 		}
 	}
 	return baseUrl
